@@ -55,14 +55,40 @@ func runCase(run *ev.Run, worker, idx int) {
 }
 
 func execCase(run *ev.Run, worker, router int, cs *caseSpec) {
-	rn := opdrv.RouterNames[router]
-	wc := getWorld(worker, worldKey{cs.Store, cs.Def, cs.Alg})
+	wc := getWorld(worker, worldKey{Store: cs.Store, Def: cs.Def, Alg: cs.Alg})
 	h, err := wc.hint(router, cs)
 	if err != nil {
 		run.HarnessBug(fmt.Sprintf("case %d: cannot mint hint %s: %v", cs.Idx, cs.HClass, err))
 		return
 	}
+	judgeRequest(run, router, wc, cs, h, reqCtx{Config: "static", Issuer: wc.w.Issuer})
+}
+
+// reqCtx is how one request reaches the provider: under which Host / Forwarded header, which issuer
+// that makes the request's own, and the configuration label of the world (part of the dimension vector).
+type reqCtx struct {
+	Config    string         `json:"config"`
+	Host      string         `json:"host,omitempty"`
+	Forwarded string         `json:"forwarded_host,omitempty"`
+	Issuer    string         `json:"issuer_of_this_request"`
+	History   []string       `json:"earlier_requests_on_this_provider,omitempty"`
+	Extra     map[string]any `json:"provider_options,omitempty"`
+}
+
+type verdict struct{ judged, rejected, redirected, violated bool }
+
+// judgeRequest sends the end-session request of (cs, h) and judges the answer. h says what the hint
+// proves relative to THIS request (its issuer, the key set the provider is configured with).
+func judgeRequest(run *ev.Run, router int, wc *wctx, cs *caseSpec, h *hintSpec, rc reqCtx) (v verdict) {
+	rn := opdrv.RouterNames[router]
 	req, snt := buildRequest(wc, cs, h)
+	if rc.Host != "" {
+		req.Host = rc.Host
+		req.URL.Host = rc.Host
+	}
+	if rc.Forwarded != "" {
+		req.Header.Set("Forwarded", `for=192.0.2.1;host="`+rc.Forwarded+`";proto=https`)
+	}
 	wc.w.Store.ResetJournal()
 	resp := wc.w.Do(router, req)
 	journal := wc.w.Store.Journal()
@@ -70,13 +96,14 @@ func execCase(run *ev.Run, worker, router int, cs *caseSpec) {
 
 	status, loc := resp.Status, resp.Location()
 	witness := map[string]any{
-		"router": rn, "case": cs, "hint": h, "request": snt,
-		"world":          map[string]any{"storage": storeNames[cs.Store], "default_logout_redirect_uri": wc.defURI, "storage_redirect": wc.knob, "signing_alg": string(wc.sig.Alg), "issuer": wc.w.Issuer},
+		"router": rn, "case": cs, "hint": h, "request": snt, "request_context": rc,
+		"world":          map[string]any{"storage": storeNames[cs.Store], "default_logout_redirect_uri": wc.defURI, "storage_redirect": wc.knob, "signing_alg": string(wc.sig.Alg)},
 		"registration_A": regDesc(cs.A), "registration_B": regDesc(cs.B),
 		"response": map[string]any{"status": status, "location": loc, "body": briefBody(resp.Body.String())},
 		"journal":  journal,
 	}
 	violated := func(kind, class, what string) {
+		v.violated = true
 		run.Violation("C18:"+rn+":"+kind+":"+class, int64(cs.Idx), what, witness)
 	}
 	if resp.Panic != nil {
@@ -92,7 +119,9 @@ func execCase(run *ev.Run, worker, router int, cs *caseSpec) {
 
 	rejected := status >= 400
 	redirected := status >= 300 && status < 400 && loc != ""
-	run.Distinct(strings.Join([]string{rn, cs.HClass, cs.CClass, cs.UClass, cs.A, storeNames[cs.Store]}, "|"))
+	v.judged, v.rejected, v.redirected = true, rejected, redirected
+	run.Distinct(strings.Join([]string{rn, rc.Config, cs.HClass, cs.CClass, cs.UClass, cs.A, storeNames[cs.Store]}, "|"))
+	run.Count("dims", "config="+rc.Config)
 	run.Count("status", fmt.Sprint(status))
 	run.Count("dims", "method="+methodNames[cs.Method])
 	run.Count("dims", "storage="+storeNames[cs.Store])
@@ -399,6 +428,7 @@ func execCase(run *ev.Run, worker, router int, cs *caseSpec) {
 	case outcome == "302-storage":
 		run.SampleKind("storage-redirect", witness)
 	}
+	return v
 }
 
 func hintKind(h *hintSpec) string {
@@ -413,12 +443,14 @@ func hintKind(h *hintSpec) string {
 
 func main() {
 	run := ev.Start("C18", "exploration")
-	run.SetRule("case index = mixed radix over (hint class 26, client_id class 5, post_logout_redirect_uri class 34, registration of client A 10) x rounds; per case state class/value, B registration, storage variant, default-URI variant, signing algorithm, method, subject and the concrete URI/mutation are drawn from the case PRNG; every case is executed on the Provider router and the LegacyServer router (one evaluation each); distinct = distinct vectors (router, hint class, client_id class, URI class, A registration, storage variant) that were answered and judged")
+	run.SetRule("case index = mixed radix over (hint class 26, client_id class 5, post_logout_redirect_uri class 34, registration of client A 10) x rounds; per case state class/value, B registration, storage variant, default-URI variant, signing algorithm, method, subject and the concrete URI/mutation are drawn from the case PRNG; every case is executed on the Provider router and the LegacyServer router (one evaluation each); a second enumerated product (case indices from 1e9) covers provider configurations: dynamic issuer (IssuerFromHost \"\" and \"/tenant\", IssuerFromForwardedOrHost) on a fresh provider per case driven under two hosts in both orders (3 requests) with hints for either host's issuer / the static issuer / issuer+slash, signed, expired or minted by a code flow under that host; and WithIDTokenHintKeySet({H}) / + WithAccessTokenKeySet(decoy) / decoy only / default with hints signed by H, the storage key S or a foreign key; distinct = distinct vectors (router, configuration, hint class, client_id class, URI class, A registration, storage variant) that were answered and judged")
 	run.Assume(
 		"glob semantics = path.Match as documented for op.HasRedirectGlobs; a malformed pattern registers nothing",
 		"a redirect target 'is' a requested URI when scheme/host (case-insensitively), userinfo, path, fragment and the multiset of query parameters other than state agree",
 		"a hint without azp proves no client (the statement names the authorized party); redirecting to a URI registered for its single audience would be counted grey, not failed",
 		"the URI returned by a storage implementing CanTerminateSessionFromRequest is the provider's own choice; the URI handed to it is judged like a Location",
+		"under a request-dependent issuer 'foreign issuer' is relative to the issuer of the request the hint is presented on; a hint is valid only under its own issuer",
+		"with op.WithIDTokenHintKeySet the configured set is the trusted one: a hint signed by the storage's signing key is then a wrong-key hint",
 		"without a hint no subject is proven: TerminateSession(\"\", client_id) is counted, not judged",
 		"state on the default logout URI: altered is a violation, absent is grey; a registered URI that itself carries a state parameter is excluded from the state oracle")
 	for _, rn := range opdrv.RouterNames {
@@ -428,18 +460,30 @@ func main() {
 		run.Mandatory("redirect-registered-by-hint:"+rn, "redirect-registered-by-client_id:"+rn, "glob-redirect:"+rn, "expired-accepted:"+rn,
 			"bad-signature-rejected:"+rn, "foreign-issuer-rejected:"+rn, "contradiction-rejected:"+rn, "unregistered-refused:"+rn,
 			"state-roundtrip:"+rn, "terminate-matched:"+rn, "terminate-from-request:"+rn, "default-redirect:"+rn, "storage-redirect:"+rn, "malformed-glob-decided:"+rn,
-			"meta-subst-refused:opted-in:"+rn, "meta-subst-refused:not-opted-in:"+rn)
+			"meta-subst-refused:opted-in:"+rn, "meta-subst-refused:not-opted-in:"+rn,
+			"dyn-own-issuer-accepted:"+rn, "dyn-own-issuer-accepted-on-second-host:"+rn, "dyn-foreign-issuer-rejected:"+rn, "dyn-first-hosts-issuer-rejected-on-second-host:"+rn,
+			"ks-H-accepted-with-option:"+rn, "ks-S-rejected-with-option:"+rn, "ks-F-rejected-with-option:"+rn, "ks-S-accepted-without-option:"+rn, "ks-H-rejected-without-option:"+rn)
 	}
 	p := product()
 	rounds := run.N(1, 24)
 	run.Extra("product_per_round", p)
 	run.Extra("rounds", rounds)
+	cfgRounds := run.N(3, 40)
+	run.Extra("config_product_per_round", configProduct())
+	run.Extra("config_rounds", cfgRounds)
 	if rc := run.ReplayCase(); rc >= 0 {
-		runCase(run, 0, int(rc))
+		if rc >= configBase {
+			runConfigCase(run, 0, int(rc-configBase))
+		} else {
+			runCase(run, 0, int(rc))
+		}
 		run.Finish()
 	}
 	ev.Parallel(p*rounds, 0, func(worker int, i int) {
 		runCase(run, worker, i)
+	})
+	ev.Parallel(configProduct()*cfgRounds, 0, func(worker int, j int) {
+		runConfigCase(run, worker, j)
 	})
 	run.Finish()
 }
